@@ -466,6 +466,22 @@ def run_fuzz(chk, asan_impl, ncases):
         if "open - 0" in out:
             accepted += 1
         problem = None
+        import re as _re
+        mcf = _re.search(r"CLOSE-FAILED (-?\d+)", out)
+        if mcf:
+            # gd_close refused to release the handle (by design it keeps it when closing a file
+            # fails); judged separately from what the sanitizer says afterwards
+            never = "DISCARD-NEVER" in out
+            key = "close/%s(error=%s)" % ("handle-never-released" if never else "first-close-fails-on-readonly-handle", mcf.group(1))
+            if key not in classes:
+                classes[key] = True
+                files = {fn: open(os.path.join(d, fn), "rb").read()[:4000].hex() for fn in sorted(os.listdir(d))}
+                chk.violation(key, "gd_close on a read-only handle fails with error %s after reading corrupt data%s" % (
+                    mcf.group(1), " and gd_discard never succeeds" if never else " (gd_discard succeeds after retries)"),
+                    {"kind": "impl-vs-spec", "files_hex": files, "mode": ped, "tail": out[-600:],
+                     "how": "write files_hex into a directory; harness/C05/fuzz <dir> (asanmem build)"})
+            if never:
+                continue
         if rep:
             problem = ("sanitizer", rep)
         elif rc == 124:
